@@ -89,7 +89,7 @@ def default_key(p, clause, detail) -> str:
     body = p["body"][1:] if p["body"] and p["body"][0]["k"] == "stareq" else p["body"]
     if len(body) <= 7:
         return f"{clause}/small:" + ";".join(sig(s) for s in body)
-    kinds = sorted({s["k"] for s in body if s["k"] in ("stareq", "ateq", "incbin", "for", "if", "apply", "scope", "block", "macro")})
+    kinds = sorted({s["k"] for s in body if s["k"] in ("stareq", "ateq", "incbin", "for", "if", "apply", "scope", "block", "macro", "map")})
     return f"{clause}/{p['rom']}/{'+'.join(kinds)}"
 
 
